@@ -79,7 +79,9 @@ def load_csv(
 
         voter_set = None
         if id_label is not None:
-            voter_set = set(group_df[id_label])
+            # ids are stored as strings (Ballot.voter_set is a set of str); a numeric id
+            # column is parsed by pandas as numbers
+            voter_set = set(str(v) for v in group_df[id_label])
         weight = len(group_df)
         if weight_label is not None:
             weight = sum(group_df[weight_label])
